@@ -45,9 +45,9 @@ theorem path_agreement (cfg : Cfg) {t : TCfg} (ht : t.Ok) {i : Info} {stride bit
     ∀ {rE : R} {oi : OutputInfo} {B : Bytes}, Inv t r → Line0Fresh r → r.dec.info = some i →
     stride = outLineSize t i r.flags r.sub.width → bits = outBits t i r.flags →
     frameInto cfg t r buf = (rE, .frame oi B, B) →
-    ∃ rEk, frameInto cfg t rk bufk = (rEk, .frame oi B, B) ∧ Sim False rE rEk ∧ Inv t rk ∧ Line0Fresh rk ∧ Keep r rk := by
+    ∃ rEk, frameInto cfg t rk bufk = (rEk, .frame oi B, B) ∧ PSim False rE rEk ∧ Inv t rk ∧ Line0Fresh rk ∧ Keep r rk := by
   induction hc with
-  | done r buf => intro rE oi B hI hF _ _ _ hW; exact ⟨rE, hW, Sim.refl _ _, hI, hF, Keep.refl _⟩
+  | done r buf => intro rE oi B hI hF _ _ _ hW; exact ⟨rE, hW, PSim.refl _ _, hI, hF, Keep.refl _⟩
   | @nextRow r r1 r2 buf buf1 buf2 ii data hx hp _ ih =>
     intro rE oi B hI hF hi hst hbits hW
     obtain ⟨b1, b2, b3, b4, b5, b6, _⟩ := nextRow_keeps cfg ht hI hi hx
